@@ -259,7 +259,7 @@ def api_cases(C: Counter) -> List[dict]:
                 for da in API_DST_ATTRS:
                     for ckind, ckw in API_CONNS:
                         for has_init in (False, True):
-                            for shape in ("single", "dict_reused", "two_dest_attrs"):
+                            for shape in ("single", "dict_reused", "two_dest_attrs", "init_value_None", "init_value_0"):
                                 if shape != "single" and not (has_init and ckind != "plain"):
                                     continue
                                 world = mosaik.World({"S": {"python": "vlab.sims:ScriptedSim"}}, skip_greetings=True)
@@ -277,7 +277,8 @@ def api_cases(C: Counter) -> List[dict]:
                                     if ckind != "plain" and da in n and not has_init:
                                         probs.append("shifted/weak into non-trigger input without initial data")
                                     kw = dict(ckw)
-                                    D = {sa: "INIT"}
+                                    # None, 0 are legal initial values ("no initial data" is the absence of the key)
+                                    D = {sa: {"init_value_None": None, "init_value_0": 0}.get(shape, "INIT")}
                                     if has_init:
                                         kw["initial_data"] = D
                                     case = {"api": True, "dst_type": typ, "dst_model": desc, "src_attr": sa, "dst_attr": da,
@@ -302,6 +303,14 @@ def api_cases(C: Counter) -> List[dict]:
                                     if ok != (not probs):
                                         out.append({"kind": "accepted_but_invalid" if ok else "rejected_but_valid",
                                                     "case": case, "expected_problems": probs})
+                                except Exception as ex:  # noqa: BLE001  (a valid model / call must not fail otherwise)
+                                    C["api_case_raised_other"] += 1
+                                    if not any(o_["kind"] == "api_case_raised_other" and o_["case"]["dst_model"] == desc
+                                               for o_ in out):
+                                        out.append({"kind": "api_case_raised_other",
+                                                    "case": {"api": True, "dst_type": typ, "dst_model": desc, "src_attr": sa,
+                                                             "dst_attr": da, "connection": ckind},
+                                                    "error": f"{type(ex).__name__}: {str(ex)[:300]}"})
                                 finally:
                                     world.shutdown()
     return out
@@ -382,6 +391,66 @@ def group_fault_cases(C: Counter) -> List[dict]:
     return out
 
 
+def same_model_name_cases(C: Counter) -> List[dict]:
+    """Several simulator instances (one sim_config entry, configured by init parameters) offer a model with the SAME
+    name but different attributes.  Every connect() has to be judged against the models of the very entities named
+    in the call, whatever was accepted or refused before for equally named models/attributes."""
+    import mosaik
+    import warnings
+    from mosaik.exceptions import ScenarioError
+    from ..build import setup_logging
+    setup_logging()
+    out: List[dict] = []
+
+    def spec(ins, outs):
+        return {"type": "hybrid", "entities": ["e0"], "ins": ins, "outs": outs}
+    rich_src = spec({}, {"p": "persistent", "e": "nonpersistent"})
+    poor_src = spec({}, {"p": "persistent"})
+    rich_dst = spec({"t": "trigger", "n": "nontrigger"}, {})
+    poor_dst = spec({"t": "trigger"}, {})
+    calls = []          # (src, dst, pair, kwargs, valid)
+    for (sa, da) in (("e", "t"), ("p", "n"), ("e", "n"), ("p", "t")):
+        for kw in ({}, {"time_shifted": True, "initial_data": {sa: 1}}):
+            calls.append(("A", "B", (sa, da), kw, True))
+            calls.append(("A2", "B", (sa, da), kw, sa == "p"))
+            calls.append(("A", "B2", (sa, da), kw, da == "t"))
+            calls.append(("A2", "B2", (sa, da), kw, sa == "p" and da == "t"))
+    import random as _r
+    for order_seed in range(12):
+        order = list(calls)
+        _r.Random(order_seed).shuffle(order)
+        if order_seed == 0:
+            order = sorted(calls, key=lambda c_: not c_[4])     # all valid ones first
+        if order_seed == 1:
+            order = sorted(calls, key=lambda c_: c_[4])         # all invalid ones first
+        with warnings.catch_warnings():
+            warnings.simplefilter("ignore")
+            world = mosaik.World({"S": {"python": "vlab.sims:ScriptedSim"}}, skip_greetings=True)
+            try:
+                f = {"A": world.start("S", sim_id="A", spec=rich_src), "A2": world.start("S", sim_id="A2", spec=poor_src),
+                     "B": world.start("S", sim_id="B", spec=rich_dst), "B2": world.start("S", sim_id="B2", spec=poor_dst)}
+                e = {k_: v.M() for k_, v in f.items()}
+                done = []
+                for src, dst, pair, kw, valid in order:
+                    C["same_model_name_connects"] += 1
+                    try:
+                        world.connect(e[src], e[dst], pair, **{k_: (dict(v) if isinstance(v, dict) else v) for k_, v in kw.items()})
+                        ok = True
+                    except ScenarioError:
+                        ok = False
+                    if ok != valid:
+                        out.append({"kind": "accepted_but_invalid" if ok else "rejected_but_valid",
+                                    "case": {"same_model_name_other_attrs": True, "src": src, "dst": dst, "pair": list(pair),
+                                             "kwargs": sorted(kw), "calls_before": done[-6:]},
+                                    "note": "model M of A/B has attrs p,e / t,n; model M of A2/B2 only p / t"})
+                        break
+                    done.append([src, dst, list(pair), ok])
+                C["same_model_name_sequences"] += 1
+            finally:
+                world.shutdown()
+    return out
+
+
 def obligations(st):
     return st.get("steps", 0)
 
@@ -440,6 +509,13 @@ def run_slice(job: dict) -> dict:
             if len(res["violations"]) < 10:
                 res["violations"].append({"v": vv, "replay": {"group_fault_case": True}})
         res["evaluations"] += 1
+    if w == 3 % W:
+        for vv in same_model_name_cases(C):
+            C["violation_" + vv["kind"]] += 1
+            C["unlisted_violations"] += 1
+            if len(res["violations"]) < 10:
+                res["violations"].append({"v": vv, "replay": {"same_model_name_case": True}})
+        res["evaluations"] += 1
     # ---- (B) group scoping end-to-end with the engine-A monitors ------------------------
     def post(scn, tr, a):
         out = []
@@ -486,6 +562,8 @@ def replay(rep: dict) -> List[dict]:
         return api_cases(Counter())
     if "group_fault_case" in r:
         return group_fault_cases(Counter())
+    if "same_model_name_case" in r:
+        return same_model_name_cases(Counter())
     if "scn" in r:
         from ..monitors import Analysis
         tr = run_case(r["scn"], dict(r["sched"]))
@@ -526,7 +604,8 @@ def evidence(m, tier, seed):
                 "call must not leave the asynchronous channel behind: no mutual wait in the following run); (A4, counters "
                 "group_fault_*) `with world.group()` blocks left by an exception that is handled outside (error in user code, "
                 "failing start, nested inner block): which later weak connections are accepted shows who shares a group; "
-                "real connect(), then a "
+                "(A5, counters same_model_name_*) four instances of one simulator "
+                "whose equally named model has other attributes, 32 calls in 12 orders; initial values None and 0; real connect(), then a "
                 "run with the source starved to show that a rejected pair left no data-flow, output request, "
                 "trigger or wait; (B) generated scenarios with sibling/nested groups and weak loops under the "
                 "step-set and ordering monitors (labels by group path); distinct_nontrivial = distinct table "
